@@ -442,10 +442,10 @@ class Ctx:
         res.add_summary(family, summ)
         return info, summ
 
-    def trace(self, res, family, trace_spec, trace_cfg, n, timeout_s=600, max_rejects=3):
+    def trace(self, res, family, trace_spec, trace_cfg, n, timeout_s=600, max_rejects=3, extra_args=()):
         """code -> spec: record n events, validate; on rejection report the session and continue with the rest."""
         seed = self.seed
-        info, summ, rejected = record_trace_validate(self.scratch, self.harness(), family, trace_spec, trace_cfg, seed, n, timeout_s)
+        info, summ, rejected = record_trace_validate(self.scratch, self.harness(), family, trace_spec, trace_cfg, seed, n, timeout_s, extra_args)
         res.add_tlc(info)
         res.add_summary(family + "-trace", summ, count_as_traces=True)
         tries = 0
@@ -485,6 +485,52 @@ class Ctx:
             info2, rejected = validate_trace_only(self.scratch, trace_spec, trace_cfg, timeout_s)
             res.add_tlc(info2)
         return info
+
+    def repo_tests_trace(self, res, timeout_s=900):
+        """code -> spec through the repository's OWN tests: a scratch copy of the working tree gets the observation
+        hook installed (harness/repotrace), its test suite runs with -tags verif, and every NewMapXml call it makes is
+        validated against the decode specification (Trace_Xml.tla, event decx)."""
+        repo = os.environ.get("VERIF_REPO", "/repo")
+        work = tempfile.mkdtemp(prefix="repocopy_", dir=self.scratch)
+        r = run(["rsync", "-a", "--exclude", ".git", repo + "/", work + "/"], stdout=subprocess.PIPE, stderr=subprocess.STDOUT, text=True)
+        if r.returncode != 0:
+            raise MachineryError("cannot copy the repository: " + r.stdout[-500:])
+        shutil.copy(os.path.join(VERIF, "harness", "repotrace", "zz_verif_trace_test.go.txt"), os.path.join(work, "zz_verif_trace_test.go"))
+        raw = os.path.join(self.scratch, "repo_raw.ndjson")
+        t0 = time.time()
+        r = run(["timeout", str(timeout_s), "go", "test", "-tags", "verif", "-vet=off", "-count=1", "."], cwd=work,
+                env=dict(GOENV, MXJ_VERIF_TRACE=raw), stdout=subprocess.PIPE, stderr=subprocess.STDOUT, text=True)
+        shutil.rmtree(work, ignore_errors=True)
+        if not os.path.exists(raw) or os.path.getsize(raw) == 0:
+            raise MachineryError("the repository's tests logged no NewMapXml call (go test rc=%s): %s" % (r.returncode, r.stdout[-1500:]))
+        sd = prepare_spec_dir(self.scratch)
+        trace = os.path.join(sd, "trace_xml.ndjson")
+        summ = os.path.join(self.scratch, "xmlevents.summary.json")
+        r2 = run([self.harness(), "xmlevents", raw, trace, summ], stdout=subprocess.PIPE, stderr=subprocess.STDOUT, text=True)
+        if r2.returncode != 0 or not os.path.exists(summ):
+            raise MachineryError("xmlevents failed: " + r2.stdout[-1500:])
+        summary = json.load(open(summ))
+        if summary.get("cases", 0) == 0:
+            raise MachineryError("no observation of the repository's tests is in the specification's domain")
+        summary.setdefault("extra", {})["go_test_rc"] = r.returncode
+        res.add_summary("xmlrepo-trace", summary, count_as_traces=True)
+        tries = 0
+        while True:
+            info, rejected = validate_trace_only(self.scratch, "Trace_Xml.tla", "Trace_Xml.cfg", 600)
+            info["cmd"] = "go test -tags verif (repository's tests, hook VerifOnDecode) | mxjconf xmlevents | tlc -config Trace_Xml.cfg Trace_Xml.tla"
+            res.add_tlc(info)
+            if rejected is None or tries >= 3:
+                break
+            tries += 1
+            lines = open(trace).read().splitlines()
+            ev = json.loads(lines[rejected - 1])
+            res.mismatches.append(("xml", {"sig": "trace:xmlrepo:decx", "detail": "NewMapXml call of the repository's tests rejected by Trace_Xml.tla: options %s, result %s"
+                                           % (json.dumps(ev.get("o")), json.dumps(ev.get("r"))[:500]),
+                                           "case": {"session": [{"op": "reset"}, ev]}}, 1))
+            rest = lines[:rejected - 1] + lines[rejected:]
+            if not rest:
+                break
+            open(trace, "w").write("\n".join(rest) + "\n")
 
     def harness_cmd(self, args):
         """runs an auxiliary harness command inside the scratch copy of spec/ (e.g. generated constants modules)"""
